@@ -492,6 +492,7 @@ func (r *run) checkBatch(jobs []*linJob) {
 					return
 				}
 				jobs[i].res = checkHistory(jobs[i].h, r.paranoid)
+				beat() // checking a history is progress too (the watchdog is about the code under test, not about the checker)
 			}
 		}()
 	}
@@ -586,6 +587,7 @@ func (r *run) sectionMapLin() error {
 					ut := obj.mk()
 					p := genProgram(rand.New(rand.NewSource(rs)), sc, maxG, ut)
 					h := runProgram(p, ut)
+					beat()
 					batch = append(batch, &linJob{obj: obj.name, sc: sc, round: round, rep: rep, rs: rs, p: p, h: h})
 
 					// the same program once more, unstamped and repeated, for the race detector
